@@ -607,7 +607,7 @@ def dump_one(f: TextIO, data: IOData) -> None:
     types = [item for shell in obasis.shells for item in angmom_prim[shell.angmoms[0]]]
 
     # Write header (title, # MOs, # primitives, # atoms)
-    print(f" {data.title if data.title else DEFAULT_WFN_TTL}", file=f)
+    print(f" {DEFAULT_WFN_TTL if data.title is None else data.title}", file=f)
     print(FMT_NUM.format(data.mo.norb, obasis.nbasis, data.natom), file=f)
 
     # Write atoms (symbol, atom #, centre #, x pos., y pos., z pos., charge)
